@@ -74,18 +74,23 @@ def build(s):
     import wntr
     wn = wntr.network.WaterNetworkModel()
     o = s["opts"]
-    t = wn.options.time
-    t.duration = o["dur"]; t.hydraulic_timestep = o["hyd"]; t.pattern_timestep = o["pat"]
-    t.report_timestep = o["rep"]; t.pattern_start = o["pstart"]; t.start_clocktime = o["clock"]
-    t.rule_timestep = o["rule"]
-    if o.get("interp"):
-        t.pattern_interpolation = True
-    h = wn.options.hydraulic
-    h.demand_model = o["dm"]; h.demand_multiplier = o["mult"]
-    for k, a in (("pmin", "minimum_pressure"), ("preq", "required_pressure"), ("pexp", "pressure_exponent"),
-                 ("trials", "trials")):
-        if k in o:
-            setattr(h, a, o[k])
+
+    def set_options():
+        t = wn.options.time
+        t.duration = o["dur"]; t.hydraulic_timestep = o["hyd"]; t.pattern_timestep = o["pat"]
+        t.report_timestep = o["rep"]; t.pattern_start = o["pstart"]; t.start_clocktime = o["clock"]
+        t.rule_timestep = o["rule"]
+        if o.get("interp"):
+            t.pattern_interpolation = True
+        h = wn.options.hydraulic
+        h.demand_model = o["dm"]; h.demand_multiplier = o["mult"]
+        for k, a in (("pmin", "minimum_pressure"), ("preq", "required_pressure"), ("pexp", "pressure_exponent"),
+                     ("trials", "trials")):
+            if k in o:
+                setattr(h, a, o[k])
+    late = bool(s.get("late_options"))      # order of API calls: options assigned after patterns, elements and controls exist
+    if not late:
+        set_options()
     for name, mult in s["patterns"].items():
         wn.add_pattern(name, list(mult))
     ncurve = [0]
@@ -132,6 +137,8 @@ def build(s):
         if lk:
             wn.get_node(n["n"]).add_leak(wn, lk["area"], lk.get("cd", 0.75), lk.get("start"), lk.get("end"))
     add_controls(wn, s["controls"])
+    if late:
+        set_options()
     if s.get("via_reset", True):
         # run-time state := definition (the documented way to put a model into its initial state)
         wn.reset_initial_values()
